@@ -13,6 +13,7 @@ import Driver.Comp
 import Driver.Lex
 import Driver.Macro
 import Driver.Decomp
+import Driver.SsbsText
 open Lean Drv
 
 /-- dispatch on the prefix of "op" -/
@@ -34,6 +35,7 @@ def dispatch (j : Json) : R Json := do
   | "lex" => LexD.handle op j
   | "macro" => MacroD.handle op j
   | "decomp" => DecompD.handle op j
+  | "ssbstext" => SsbsTextD.handle op j
   | _ => throw s!"unknown op {op}"
 
 partial def loop (h : IO.FS.Stream) (out : IO.FS.Stream) : IO Unit := do
